@@ -516,3 +516,53 @@ Proof.
   repeat split; try reflexivity; try (exact Eb').
   all: apply ren_noeol_id; [exact Wn|]; unfold off_ok, slen; rewrite app_length; unfold nb; rewrite !app_length; cbn [length]; lia.
 Qed.
+
+(* ---------- A with plain text ---------- *)
+Lemma refines_A_plain rows e typed e1 body :
+  let b := s_buf e in let s := s_vs e in
+  buf_wf b -> cursor_ok b (v_row s) (v_off s) -> getl b (v_row s) = Some (body ++ [nlc]) ->
+  forallb plain_key typed = true -> existsb (fun c => negb (is_blankc c)) typed = true ->
+  exec1 rows (CIns IA typed) e = Some e1 ->
+  s_buf e1 = set_row b (v_row s) [body ++ typed ++ [nlc]] 1 /\
+  s_regs e1 = s_regs e /\ v_row (s_vs e1) = v_row s /\ v_off (s_vs e1) = slen body + slen typed - 1.
+Proof.
+  intros b s HW Hc El Hp Hnb X.
+  set (l := body ++ [nlc]) in *. pose proof (getl_wf _ _ _ HW El) as Wl. pose proof (wf_body body Wl) as Hb.
+  assert (Hs : slen l = Z.of_nat (length body) + 1) by (unfold l, slen; rewrite app_length; cbn [length]; lia).
+  assert (Hr : 0 <= v_row s < blen b) by (apply getl_some in El; lia).
+  assert (Hlt : (1 <= length typed)%nat) by (destruct typed; [discriminate|cbn; lia]).
+  pose proof (plain_nonl typed Hp) as Ht.
+  cbn [exec1] in X. unfold exec_insert in X. fold b s in X. rewrite El in X. cbn [is_oO negb andb optl] in X.
+  rewrite (lbuf_eol_some b (v_row s) l El Wl) in X.
+  assert (RN' : ren_noeol (Some l) (slen l - 1) = Z.max 0 (slen l - 2)) by (apply ren_noeol_eol, Wl).
+  rewrite RN' in X.
+  assert (EF : (let off0 := Z.max 0 (slen l - 2) + 1 in match Some l with Some (c :: _) => if is_nlb c then 0 else off0 | _ => off0 end) = slen body).
+  { unfold l. destruct body as [|c0 body']; cbn [app].
+    - reflexivity.
+    - inversion Hb; subst. unfold is_nlb. destruct (N.eqb_spec (b0 c0) 10); [contradiction|]. unfold slen. cbn [length]. rewrite app_length. cbn [length]. lia. }
+  cbv zeta in EF. cbv zeta in X. rewrite EF in X.
+  assert (E1 : sub_l l 0 (slen body) = body) by (unfold l; apply sub_l_app_left).
+  assert (E2 : sub_l l (slen body) (-1) = [nlc]) by (unfold l; apply sub_l_app_right).
+  rewrite E1, E2 in X.
+  rewrite vi_input_plain in X; try assumption; [|exists []; split; [reflexivity|constructor]].
+  cbn [nextlines] in X. replace (v_row s - 1 + 1) with (v_row s) in X by lia.
+  set (nb := body ++ typed).
+  assert (ENB : body ++ typed ++ [nlc] = nb ++ [nlc]) by (unfold nb; rewrite <- app_assoc; reflexivity).
+  rewrite ENB in *.
+  assert (Wn : line_wf (nb ++ [nlc])).
+  { apply body_wf. unfold nb. apply Forall_app. split; assumption. }
+  replace (v_row s + 1) with (v_row s + Z.of_nat 1) in X by lia.
+  rewrite lbuf_edit_some in X by (cbn; lia). rewrite (split_text_line _ Wn) in X. change (Z.of_nat 1) with 1 in X.
+  match type of X with context [finish rows ?bb _ _ _] => remember bb as b' eqn:Eb' end.
+  assert (Hb' : blen b' = blen b).
+  { rewrite Eb'. unfold set_row, blen in *. rewrite !app_length, firstn_length, skipn_length. cbn [length]. lia. }
+  assert (G : getl b' (v_row s) = Some (nb ++ [nlc])).
+  { rewrite Eb'. unfold getl, set_row. destruct (Z.ltb_spec (v_row s) 0); [lia|]. unfold blen in Hr.
+    rewrite nth_error_app2 by (rewrite firstn_length; lia). rewrite firstn_length, Nat.min_l by lia. rewrite Nat.sub_diag. reflexivity. }
+  inversion X; subst e1. clear X. set (st := vs_top _ _).
+  assert (Hrow : 0 <= v_row st < blen b') by (unfold st; cbn [vs_top vs_pos v_row]; lia).
+  rewrite finish_buf, finish_regs, finish_row, finish_off by exact Hrow. unfold st. cbn [vs_top vs_pos v_row v_off]. rewrite G.
+  replace (Z.max 0 (slen body + slen typed - 1)) with (slen body + slen typed - 1) by (unfold slen; lia).
+  repeat split; try reflexivity; try (exact Eb').
+  all: apply ren_noeol_id; [exact Wn|]; unfold off_ok, slen; rewrite app_length; unfold nb; rewrite !app_length; cbn [length]; lia.
+Qed.
